@@ -49,6 +49,10 @@ var verMods = []Op{
 
 var verSetups = [][]Op{
 	{{Op: "Sign", A: "k1"}},
+	// signed after 1, 3 or 5 benign edits: the next edit then leads to a text an encoder easily confuses with the signed one
+	{{Op: "EditBenign"}, {Op: "Calculate"}, {Op: "Sign", A: "k1"}},
+	{{Op: "EditBenign"}, {Op: "EditBenign"}, {Op: "EditBenign"}, {Op: "Calculate"}, {Op: "Sign", A: "k1"}},
+	{{Op: "EditBenign"}, {Op: "EditBenign"}, {Op: "EditBenign"}, {Op: "EditBenign"}, {Op: "EditBenign"}, {Op: "Calculate"}, {Op: "Sign", A: "k1"}},
 	{{Op: "AddLink", A: "l1", B: "x"}, {Op: "AddTag", A: "t1"}, {Op: "SetMeta", A: "m1", B: "a"},
 		{Op: "SetNotes", A: "n1"}, {Op: "AddStamp", A: "p1", B: "a"}, {Op: "Sign", A: "k1"}},
 }
